@@ -191,6 +191,8 @@ class C02:
             okeys = make_keys(S, other, 1)
             reps = 2 if tier == "quick" else 4
             flows = honest_sigs(S, suite, keys, [(L, "rand") for L in Ls for _ in range(reps)])
+            # headers around 4096 octets and a very long one: every edit of them is rejected like any other header edit
+            flows += honest_sigs(S, suite, keys, [(2, rb(rng, hl_)) for hl_ in (4095, 4096, 4097, 10000)], label="sign(long header)")
             # one signature over a vector holding a message of MORE than 65535 octets (the length fields of expand_message have 16 bits) and one of exactly 65535
             sk_, pk_ = keys[0]; big_ = [rb(rng, 65536 + rng.randrange(5000)), b"other", rb(rng, 65535)]
             rbig = S.run(["sign %s %s %s %s %s" % (suite, tb(sk_), tb(pk_), "N", tl(big_))], expect="ok", label="sign(large message)")[0]
